@@ -5,26 +5,29 @@ Model: `QmcModel/FastOps.lean` (field-for-field `FastOpsTemplate`, `mutate_p`, s
 `abs c` forgets every pointer; `canon nv nb s` recomputes every pointer, end, count and counter by
 scanning the naive slot array `s`; `Inv c := c = canon … (abs c) ∧ WF (abs c)`.
 
-PROVED here (all unbounded: any cutoff, any number of variables/bonds, any op sequence):
-* `getters_eq_scan`            every getter of a container satisfying `Inv` equals the direct scan
-* `interface_algorithms_agree` any function of the container gives equal results on `c` and on
-                               `canon (abs c)`
-* `refine_step_partial`        GLOBAL chain (`previous_p/next_p/p_ends/n/bond_counters`): a valid
-                               mutation preserves the global invariant and commutes with `abs`
-* `refine_step_partial_of_Inv` the same starting from a fully consistent container
-* `refine_seq_partial`         induction over any list of mutations
-* `mutate_p_global`            one `mutate_p` with its cursor: all four paths (fast path, removal,
-                               insertion, removal+insertion), cursor advanced to the scan cursor
-* `cursor_correct_partial`     `fill_args_at_p` on a canonical container finds the scan `last_p`
-* `new_inv`, `inv_implies_global`, `endsOK_of_inv`
-NOT proved (stated below as `…Statement : Prop`, tied by correspondence only): the per-variable
-half of `refine_step` (`previous_for_vars/next_for_vars/var_ends`), the per-variable entries of
-the cursor, `mutate_ops` (`sweepOps`), `new_from_ops`, `get_nth_p`, and `get_count` without
-counters.  See design_notes/C11.md.
+PROVED here (all unbounded: any cutoff, any number of variables/bonds, any op sequence, any
+callback):
+* `refine_step`   a valid public mutation (`mutate_p` through a filled cursor, `mutate_ps`,
+                  `mutate_ops`, `set_cutoff`) preserves `Inv` and commutes with `abs`
+                  (ALL pointers: global chain, per-variable chains, ends, `n`, counters)
+* `refine_seq`    induction over any list of mutations from the empty container
+* `mutate_p_refines`  one `mutate_p` with its cursor (`last_p`, `last_vars`, `last_rels`): all four
+                  paths (same-vars fast path, removal, insertion, removal+insertion); the cursor
+                  is advanced to the scan cursor at `p + 1`
+* `cursor_correct`    `fill_args_at_p(p, get_empty_args(All))` is the scan cursor
+* `getters_eq_scan`   every getter of a container satisfying `Inv` equals the direct scan
+* `interface_algorithms_agree`  any function of the container gives equal results on `c` and on
+                  `canon (abs c)`
+* global-chain versions that do not need the per-variable half: `mutate_p_global`,
+  `refine_step_partial`, `refine_step_partial_of_Inv`, `refine_seq_partial`,
+  `cursor_correct_partial`; `new_inv`, `inv_implies_global`, `endsOK_of_inv`
+NOT proved (correspondence only, see design_notes/C11.md): `new_from_ops`, sub-variable sweeps
+(`Varlist` cursors, heap order), `fill_args_at_p_with_hint`, `get_nth_p`, `get_count` without
+counters.
 EXCLUDED by `WF` (documented witnesses below): ops with a repeated variable, ops without
 variables.
 -/
-import QmcProofs.FastOpsInv
+import QmcProofs.FastOpsOps
 
 namespace Qmc.C11
 open Qmc Qmc.FastOps
@@ -238,25 +241,124 @@ theorem refine_seq_partial {τ : Type} (nv : Nat) (nb : Option Nat) (ms : List (
     have := hv (m :: pre) m' post (by rw [e]; rfl)
     simpa using this
 
-/-! ## full statements (per-variable half: NOT proved; correspondence only) -/
+/-! ## the full refinement -/
 
-/-- the full refinement step -/
-def RefineStepStatement : Prop :=
-  ∀ (τ : Type) (c : FastOps) (m : Mut τ), Inv c → m.Valid c →
-    Inv (applyC c m) ∧ (applyC c m).abs = applyA c.getNvars c.nbonds c.abs m
+/-- one `mutate_p` (callback answer `new`) on a consistent container with the scan cursor:
+the result is the canonical container of the naive update — every pointer — and the cursor is the
+scan cursor one slot further.  Covers the same-vars fast path, removal, insertion and
+removal+insertion. -/
+theorem mutate_p_refines (nv : Nat) (nb : Option Nat) (s : Slots) (p u : Nat)
+    (new : Option (Option Op)) (hpL : p < s.length) (hwf : WF nv nb s) (hnew : ActOK nv nb new) :
+    mutatePWith (canon nv nb s) p new (cursorByScan nv s p u)
+      = (canon nv nb (writeA s p new), cursorByScan nv (writeA s p new) (p + 1) u) :=
+  mutatePWith_canon nv nb s p u new hpL hwf hnew
 
-/-- the full sequence theorem -/
-def RefineSeqStatement : Prop :=
-  ∀ (τ : Type) (nv : Nat) (nb : Option Nat) (ms : List (Mut τ)),
-    (∀ pre (m : Mut τ) post, ms = pre ++ m :: post → m.Valid (pre.foldl applyC (FastOps.new nv nb))) →
+/-- `cursor_correct`: `fill_args_at_p` on a consistent container is the scan cursor
+(`unfilled`, bookkeeping of the walk, is whatever the walk left) -/
+theorem cursor_correct (nv : Nat) (nb : Option Nat) (s : Slots) (p : Nat) (hwf : WF nv nb s) :
+    (canon nv nb s).fillArgsAtP p (canon nv nb s).getEmptyArgsAll
+      = cursorByScan nv s p ((canon nv nb s).fillArgsAtP p (canon nv nb s).getEmptyArgsAll).unfilled :=
+  fillArgsAtP_canon nv nb s p hwf
+
+theorem applyA_sweepOps {τ : Type} (nv : Nat) (nb : Option Nat) (s : Slots) (ps pe : Nat)
+    (f : FastOps → Op → Nat → τ → Option (Option Op) × τ) (t : τ) :
+    applyA nv nb s (.sweepOps ps pe f t)
+      = (sweepLoopA nv nb (opsWrap f) ps (min (pe + 1) (growA s pe).length - ps) (growA s pe) (t, ps)).1 := by
+  rfl
+
+/-- the refinement step on the canonical container -/
+theorem refine_step_canon {τ : Type} (nv : Nat) (nb : Option Nat) (s : Slots) (m : Mut τ)
+    (hwf : WF nv nb s) (hm : m.Valid (canon nv nb s)) :
+    applyC (canon nv nb s) m = canon nv nb (applyA nv nb s m) ∧ WF nv nb (applyA nv nb s m) := by
+  cases m with
+  | setSlot p new =>
+    obtain ⟨hp, hact⟩ := hm
+    rw [length_canon] at hp
+    rw [getNvars_canon, nbonds_canon] at hact
+    refine ⟨setSlot_canon nv nb s p new hwf hp hact, ?_⟩
+    exact WF_set nv nb s p new hwf (fun o ho => hact o (by rw [ho]))
+  | sweep ps pe f t =>
+    obtain ⟨hle, _, hf⟩ := hm
+    rw [getNvars_canon, nbonds_canon] at hf
+    obtain ⟨h1, _, h3⟩ := mutateSubsection_canon nv nb s ps pe t f hwf hle hf
+    exact ⟨h1, h3⟩
+  | sweepOps ps pe f t =>
+    obtain ⟨hle, hlt, hf⟩ := hm
+    rw [getNvars_canon, nbonds_canon] at hf
+    rw [length_canon] at hlt
+    obtain ⟨h1, h2⟩ := mutateSubsectionOps_canon nv nb s ps pe t f hwf hle hlt hf
+    rw [applyA_sweepOps]
+    exact ⟨h1, h2⟩
+  | setCutoff k =>
+    exact ⟨grow_canon nv nb s k, WF_growA nv nb s k hwf⟩
+
+/-- `refine_step`: a valid mutation preserves the invariant and commutes with the abstraction -/
+theorem refine_step {τ : Type} (c : FastOps) (m : Mut τ) (h : Inv c) (hm : m.Valid c) :
+    Inv (applyC c m) ∧ (applyC c m).abs = applyA c.getNvars c.nbonds c.abs m := by
+  obtain ⟨hc, hwf⟩ := h
+  generalize hnv : c.getNvars = nv at hc hwf ⊢
+  generalize hnb : c.nbonds = nb at hc hwf ⊢
+  generalize hs : c.abs = s at hc hwf ⊢
+  subst hc
+  obtain ⟨h1, h2⟩ := refine_step_canon nv nb s m hwf hm
+  rw [h1, abs_canon]
+  exact ⟨inv_canon nv nb _ h2, rfl⟩
+
+/-- the number of variables and of bond counters never changes -/
+theorem applyC_shape {τ : Type} (c : FastOps) (m : Mut τ) (h : Inv c) (hm : m.Valid c) :
+    (applyC c m).getNvars = c.getNvars ∧ (applyC c m).nbonds = c.nbonds := by
+  obtain ⟨hc, hwf⟩ := h
+  generalize hnv : c.getNvars = nv at hc hwf ⊢
+  generalize hnb : c.nbonds = nb at hc hwf ⊢
+  generalize hs : c.abs = s at hc hwf ⊢
+  subst hc
+  obtain ⟨h1, _⟩ := refine_step_canon nv nb s m hwf hm
+  rw [h1, getNvars_canon, nbonds_canon]
+  exact ⟨rfl, rfl⟩
+
+/-- `refine_seq`: any sequence of valid mutations, from any consistent container (in particular
+the empty one, `new_inv`) -/
+theorem refine_seq {τ : Type} (ms : List (Mut τ)) (c0 : FastOps) (h0 : Inv c0)
+    (hv : ∀ pre (m : Mut τ) post, ms = pre ++ m :: post → m.Valid (pre.foldl applyC c0)) :
+    Inv (ms.foldl applyC c0) ∧
+      (ms.foldl applyC c0).abs = ms.foldl (applyA c0.getNvars c0.nbonds) c0.abs := by
+  induction ms generalizing c0 with
+  | nil => exact ⟨h0, rfl⟩
+  | cons m t ih =>
+    have hm := hv [] m t rfl
+    obtain ⟨h1, h2⟩ := refine_step c0 m h0 hm
+    obtain ⟨e1, e2⟩ := applyC_shape c0 m h0 hm
+    simp only [List.foldl_cons]
+    have := ih (applyC c0 m) h1 (by
+      intro pre m' post e
+      have := hv (m :: pre) m' post (by rw [e]; rfl)
+      simpa using this)
+    rw [e1, e2, h2] at this
+    exact this
+
+/-- from the empty container -/
+theorem refine_seq_new {τ : Type} (nv : Nat) (nb : Option Nat) (ms : List (Mut τ))
+    (hv : ∀ pre (m : Mut τ) post, ms = pre ++ m :: post → m.Valid (pre.foldl applyC (FastOps.new nv nb))) :
     Inv (ms.foldl applyC (FastOps.new nv nb)) ∧
-      (ms.foldl applyC (FastOps.new nv nb)).abs = ms.foldl (applyA nv nb) []
+      (ms.foldl applyC (FastOps.new nv nb)).abs = ms.foldl (applyA nv nb) [] := by
+  have := refine_seq ms (FastOps.new nv nb) (new_inv nv nb) hv
+  have hnv : (FastOps.new nv nb).getNvars = nv := by simp [FastOps.new, getNvars]
+  have hnb : (FastOps.new nv nb).nbonds = nb := by cases nb <;> simp [FastOps.new, nbonds]
+  rw [hnv, hnb] at this
+  exact this
 
-/-- the full cursor theorem (`unfilled` is bookkeeping of the walk) -/
-def CursorCorrectStatement : Prop :=
-  ∀ (nv : Nat) (nb : Option Nat) (s : Slots) (p : Nat), WF nv nb s → p < s.length →
-    let a := (canon nv nb s).fillArgsAtP p (canon nv nb s).getEmptyArgsAll
-    a = cursorByScan nv s p a.unfilled
+/-- corollary: after any valid history every getter equals the direct scan of the naive slot
+array obtained by replaying the history on a plain list -/
+theorem getters_after_history {τ : Type} (nv : Nat) (nb : Option Nat) (ms : List (Mut τ))
+    (hv : ∀ pre (m : Mut τ) post, ms = pre ++ m :: post → m.Valid (pre.foldl applyC (FastOps.new nv nb))) :
+    let c := ms.foldl applyC (FastOps.new nv nb)
+    let s := ms.foldl (applyA nv nb) []
+    c.getN = countOps s ∧ c.getFirstP = firstOcc (occ s) s.length ∧ c.getLastP = lastOcc (occ s) s.length ∧
+      (∀ p, c.getPth p = slotAt s p) := by
+  obtain ⟨h1, h2⟩ := refine_seq_new nv nb ms hv
+  have g := getters_eq_scan _ h1
+  rw [h2] at g
+  exact ⟨g.1, g.2.2.2.2.1, g.2.2.2.2.2.1, g.2.2.1⟩
 
 /-! ## non-vacuity and excluded points -/
 
